@@ -227,6 +227,10 @@ def cache_job(a):
             D = getattr(klepto.safe if mod == 'safe' else klepto, nm)
             tol = r.choice([None, 0, 1, 2, 3, -1]); deep = r.random() < .5
             kmk = r.choice(['string', 'pickle', 'md5', 'raw'])
+            # stratum: one negative argument that rounds to -0.0, spelled in every form (a text key shows the sign of a zero, so
+            # every spelling has to round it the same way)
+            negzero = (k + ci) % 6 == 2
+            if negzero: tol = [0, 1][((k + ci) // 6) % 2]; kmk = ['string', 'pickle', 'md5'][(k // 3 + ci) % 3]
             km = {'string': stringmap, 'pickle': picklemap, 'md5': lambda: hashmap(algorithm='md5'), 'raw': keymap}[kmk]()
             kwd = dict(keymap=km, tol=tol, deep=deep)
             if nm not in ('no_cache', 'inf_cache'): kwd['maxsize'] = 50
@@ -235,12 +239,15 @@ def cache_job(a):
             base = r.choice([1.234, 2.5, 0.125, 2.675, 1.005, 3.0])
             eqtypes = (k + ci) % 4 == 3          # stratum: ==-equal arguments of different types back to back (3.0, 3, 3.0, ...)
             if eqtypes: base = r.choice([3.0, 1.0])
+            if negzero: eqtypes = False; base = [-0.25, -0.004, -0.0][k % 3] if tol == 0 else [-0.004, -0.04, -0.0][k % 3]
             calls = []
             for _ in range(6):
                 x = base + r.choice([0, 0.004, 0.04, 0.4, -0.004, 1e-9] if not eqtypes else [0, 0, 0, 0.004])
+                if negzero: x = base
                 if eqtypes and x == base and r.random() < .5: x = int(x) if r.random() < .7 or base != 1.0 else True
                 if r.random() < .3 and (kmk != 'raw' or mod == 'safe'): x = [x, r.choice([1, 'a', 2.55])] if r.random() < .5 else {'q': x}
                 form = r.choice(['pos', 'kw', 'default', 'extra', 'spelled', 'owntol', 'owntol'] if not eqtypes else ['pos', 'pos', 'pos', 'default'])
+                if negzero: form = ['pos', 'kw', 'default', 'spelled', 'extra', 'kw'][_]
                 calls.append((form, x))
                 if form == 'default' and r.random() < .5: calls.append(('spelled', x))     # the same call with the default written out
             keys, viol = [], []
@@ -316,6 +323,15 @@ def cache_job(a):
                                          msg='%s.%s(tol=%r, deep=%r, %s): calls %r and %r %s but their arguments round to %s values' % (
                                              mod, nm, tol, deep, kmk, keys[i][2], keys[j2][2], 'share a key' if same_key else 'get different keys',
                                              'different' if not same_round else 'the same')))
+            # C09 under a tolerance: one argument object, the same explicit arguments, spelled positionally and by keyword
+            done9 = False
+            for i in range(len(keys)):
+                for j2 in range(i + 1, len(keys)):
+                    if not done9 and {keys[i][3], keys[j2][3]} == {'pos', 'kw'} and keys[i][4] is keys[j2][4] and keys[i][0] != keys[j2][0]:
+                        done9 = True
+                        viol.append(dict(prop='C09', sig=dict(kind='respelled-under-tol', dec='%s.%s' % (mod, nm), tol=tol, keymap=kmk),
+                                         msg='%s.%s(tol=%r, deep=%r, %s): target(%r, 0.5) and target(x=%r, y=0.5) bind the same values but get keys %.120s and %.120s' % (
+                                             mod, nm, tol, deep, kmk, keys[i][4], keys[i][4], keys[i][0], keys[j2][0])))
             # C09 under a tolerance: the default written out vs left implicit is one binding, hence one key
             for i in range(len(keys)):
                 for j2 in range(len(keys)):
